@@ -395,10 +395,18 @@ def oracle(case, out):
     expect = []
     fin = False
     last_err = None
-    def advance(j, t):
-        """what happens when the iterator is asked for position j at time t: returns True if the sequence ended"""
+    tick_pos = [i for i, e in enumerate(log) if e[0] == "tick"]
+
+    def advance(j, t, pos):
+        """the scheduled action asks the iterator for position j (time t, after log position pos); each unlogged failing source it
+        continues over needs one more scheduled action. Returns True when the sequence is over (terminal, or disposed first)."""
         nonlocal last_err
         while True:
+            if op != "catch_handler" and not (case.get("inline") and pos >= 0):
+                nxt = [i for i in tick_pos if i > pos]
+                if not nxt or (disposed_pos is not None and disposed_pos < nxt[0]):
+                    return True            # the action never ran: disposed (cancelled) first
+                pos = nxt[0]
             nx = item(j)
             if nx == "src":
                 return False
@@ -415,7 +423,7 @@ def oracle(case, out):
             last_err = ["E", nx["fail"]]
             j += 1
 
-    fin = advance(0, cc.SUBSCRIBE_AT)
+    fin = advance(0, cc.SUBSCRIBE_AT, -1)
     for (p, s, nt, t) in acc:
         if fin or (disposed_pos is not None and p > disposed_pos):
             break
@@ -434,15 +442,7 @@ def oracle(case, out):
         if not continues(kind, nt):
             expect.append([t, nt]); fin = True
             continue
-        if item(s + 1) == "src":
-            continue
-        # the final terminal is produced by the scheduled action: not if the dispose comes first
-        nxt = [e for e in log[p + 1:] if e[0] in ("dispose", "tick")]
-        if nxt and nxt[0][0] == "dispose" and not case.get("inline"):   # inline: the action runs inside the terminal handler
-            break
-        fin = advance(s + 1, t)
-        if not fin and disposed_pos is not None:
-            pass
+        fin = advance(s + 1, t, p)
     if got != expect:
         return f"{op}: got {got}, expected concatenation {expect}"
     v = cc.timer_delivery_failure(case.get("srcs", []), log)
